@@ -279,15 +279,13 @@ public:
             lk.unlock();
             p(std::forward<Args>(args)...);
             return future<void>::set_value();
+        } else if (this->_queue.size() >= _limit) {
+            return [&](auto promise) {
+                _blocked.push({T(std::forward<Args>(args)...),std::move(promise)});
+            };
         } else {
             this->_queue.emplace(std::forward<Args>(args)...);
-            if (this->_queue.size() >= _limit) {
-                return [&](auto promise) {
-                    _blocked.push({T(std::forward<Args>(args)...),std::move(promise)});
-                };
-            } else {
-                return future<void>::set_value();
-            }
+            return future<void>::set_value();
         }
     }
 
